@@ -212,7 +212,7 @@ func genHooks(rng *rand.Rand) []*release.Hook {
 	evs := []release.HookEvent{release.HookPreInstall, release.HookPostInstall, release.HookPreDelete, release.HookPostDelete, release.HookPreUpgrade, release.HookPostUpgrade, release.HookPreRollback, release.HookPostRollback, release.HookTest}
 	for i := 0; i < n; i++ {
 		h := &release.Hook{Name: fmt.Sprintf("hook-%d", i), Kind: pick(rng, []string{"Job", "Pod", "ConfigMap"}), Path: "templates/hook.yaml", Manifest: "kind: Job\nmetadata:\n  name: " + ustr(rng) + "\n",
-			Weight: pick(rng, []int{0, -5, 5, 1 << 30}),
+			Weight:  pick(rng, []int{0, -5, 5, 1 << 30}),
 			LastRun: release.HookExecution{StartedAt: htime(rng), CompletedAt: htime(rng), Phase: pick(rng, []release.HookPhase{release.HookPhaseUnknown, release.HookPhaseRunning, release.HookPhaseSucceeded, release.HookPhaseFailed, ""})}}
 		for j := 0; j < 1+rng.Intn(3); j++ {
 			h.Events = append(h.Events, pick(rng, evs))
